@@ -325,7 +325,8 @@ Step(s) ==
          ELSE LET s0 == [s EXCEPT !.steps = s.steps + 1] IN
               IF s.cancel > 0 /\ s0.steps >= s.cancel
               THEN \* case <-ctx.Done(): pc, forks = len(codes), nil; return ctx.Err(), true
-                   [s0 EXCEPT !.pc = Len(s.code) + 1, !.forks = <<>>, !.out = Append(s.out, [t |-> "ctxerr"]), !.bt = TRUE, !.status = "yield"]
+                   [s0 EXCEPT !.pc = Len(s.code) + 1, !.forks = <<>>, !.out = Append(s.out, [t |-> "ctxerr"]), !.bt = TRUE, !.status = "yield",
+                              !.err = NoErr]      \* err is a local of Next(): a pending error is dropped with the call
               ELSE Exec(s0)
     [] s.status = "unwind" ->
          IF Len(s.forks) > 0 THEN [PopFork(s) EXCEPT !.status = "run"]
